@@ -31,7 +31,7 @@ RULE = (
     "only in punctuation}. distinct = by template text; non-trivial = the template has at least one def or "
     "non-ASCII character and all paths produced output."
 )
-RULE += ' added since: legacy and wide source encodings (utf-16/32) on file paths, twin templates surviving garbage collection of the other, mako-render failures, sibling URIs compared by full output / list_defs / get_def(..).render/.source/.code, templates printing their own local.uri and self.uri. defs of inheriting templates rendered alone through get_def() and inside a full render, on four lookup paths. preprocessor= (list and single callable) on the string, file, module-directory and lookup paths against the preprocessed text compiled directly; lexer_cls= subclass used exactly once.'
+RULE += ' added since: legacy and wide source encodings (utf-16/32) on file paths, twin templates surviving garbage collection of the other, mako-render failures, sibling URIs compared by full output / list_defs / get_def(..).render/.source/.code, templates printing their own local.uri and self.uri. defs of inheriting templates rendered alone through get_def() and inside a full render, on four lookup paths. preprocessor= (list and single callable) on the string, file, module-directory and lookup paths against the preprocessed text compiled directly; lexer_cls= subclass used exactly once. strict_undefined templates with several missing names and sibling nested defs whose defaults call one another, compared across hash seeds including the NameError text.'
 ASSUMPTIONS = ["mako-render is driven without --output-encoding (it crashes with that option, outside the statement)",
                "context values are strings so that the command line can pass them"]
 MIN_NONTRIVIAL = 100
